@@ -444,26 +444,35 @@ func viewIDOnlyWhenFound(r *Run, rule string) {
 		a := w.A(fn)
 		k := 0
 		seen := map[*ssa.BasicBlock]bool{}
+		isID := func(s string) bool {
+			return strings.HasSuffix(s, ".ID") && strings.Contains(s, "tmi.ViewLookupRequest{")
+		}
 		a.Instrs(func(in ssa.Instruction) {
-			ifi, ok := in.(*ssa.If)
-			if !ok {
+			use := false
+			switch x := in.(type) {
+			case *ssa.If:
+				p := NormPred(a.sh.Of(x.Cond))
+				use = p.Op == "==" && isID(p.L.String())
+			case *ssa.Call:
+				// the id handed to a classifying helper
+				if cal := x.Call.StaticCallee(); cal != nil && strings.HasPrefix(pkgPathOf(cal), modPath) {
+					for _, arg := range x.Call.Args {
+						if isID(a.sh.Of(arg).String()) {
+							use = true
+						}
+					}
+				}
+			}
+			if !use {
 				return
 			}
-			p := NormPred(a.sh.Of(ifi.Cond))
-			if p.Op != "==" {
-				return
-			}
-			l := p.L.String()
-			if !strings.HasSuffix(l, ".ID") || !strings.Contains(l, "tmi.ViewLookupRequest{") {
-				return
-			}
-			// one obligation per dispatch (the first test of the id)
+			// one obligation per dispatch (the first use of the id)
 			for b := range seen {
-				if b == ifi.Block() || reach(b, nil)[ifi.Block()] {
+				if b == in.Block() || reach(b, nil)[in.Block()] {
 					return
 				}
 			}
-			seen[ifi.Block()] = true
+			seen[in.Block()] = true
 			k++
 			n++
 			r.RequireGuards(a, rule, fmt.Sprintf("%s#view-id-dispatch%d", FuncName(fn), k), in,
@@ -672,15 +681,29 @@ func decidePrecommitTriggers(r *Run, rule string) {
 			if !strings.HasSuffix(TypeName(s.Val.Type()), "tsi.DecidePrecommitRequest") {
 				continue
 			}
-			n++
-			which := ""
-			for _, g := range alts {
-				e, _ := a.IfEdges(g.Pattern, g.Holds, nil)
-				if len(e) > 0 && a.EveryPathTakes(s.Instr, e) {
-					which = g.Name
-					break
+			established := func(fa *FnA, at ssa.Instruction) string {
+				for _, g := range alts {
+					e, _ := fa.IfEdges(g.Pattern, g.Holds, nil)
+					if len(e) > 0 && fa.EveryPathTakes(at, e) {
+						return g.Name
+					}
+				}
+				return ""
+			}
+			which := established(a, s.Instr)
+			if which == "" {
+				// a sending helper shared by several sites: the trigger is established at each call
+				if callers := w.CallersOf(w.ProdFuncs(), FuncName(fn)); len(callers) > 0 {
+					for _, c := range callers {
+						n++
+						cw := established(w.A(c.Fn), c.Instr)
+						r.Check(cw != "", rule, ord.Next(FuncName(c.Fn)+"#decide-precommit"), w.InstrPos(c.Instr),
+							"the precommit decision is requested (through "+FuncName(fn)+") only behind a Tendermint trigger; established: "+cw)
+					}
+					continue
 				}
 			}
+			n++
 			r.Check(which != "", rule, ord.Next(FuncName(fn)+"#decide-precommit"), w.InstrPos(s.Instr),
 				"the precommit decision is requested only behind a Tendermint trigger (prevote majority for one target / precommit power at a threshold / prevote delay elapsed / entry classification); established: "+which)
 		}
